@@ -25,7 +25,7 @@ THEOREMS = [
     # K per kernel
     "cmp_pointwise", "and_pointwise", "or_pointwise_partial", "or_pointwise_unsound",
     "not_pointwise", "select_pointwise", "arith_pointwise_partial", "div_pointwise_partial",
-    "arith_add_pointwise_unsound", "rem_zero_divisor_unsound", "rem_null_divisor_faults",
+    "arith_add_pointwise_unsound", "rem_pointwise", "rem_zero_is_null", "rem_null_slot_faults",
     "div_null_slot_faults",
     # raw invariant
     "cmp_raw_invariant", "or_raw_invariant", "not_raw_invariant", "and_raw_invariant_partial",
@@ -45,7 +45,7 @@ THEOREMS = [
     "like_dotfree_partial", "like_pointwise_partial", "like_pointwise_unsound", "like_newline_witness",
     "like_invalid_regex_panics",
     # constant folding
-    "fold_eq_eval_unsound", "fold_rem_zero_panics", "fold_overflow_panics",
+    "fold_eq_eval_unsound", "fold_rem_zero_is_null", "fold_overflow_panics",
     "fold_cast_out_of_range_unknown", "const_of_get0", "foldBin_sound", "foldUn_sound",
     "fold_eq_eval_partial", "arith_strict", "cmp_strict", "concat_strict", "neg_strict", "not_strict",
 ]
@@ -55,8 +55,8 @@ WITNESSES = [
     ("or_pointwise_unsound", "(k 1 (or #0 #1) (bool nt) (bool vf))"),
     ("arith_add_pointwise_unsound", "(k 1 (+ #0 #1) (i32 n2147483647) (i32 v1))"),
     ("null_slot_never_faults_unsound", "(k 2 (+ #0 #1) (i32 v1 n2147483647) (i32 v2 v1))"),
-    ("rem_zero_divisor_unsound", "(k 1 (% #0 #1) (i32 v1) (i32 v0))"),
-    ("rem_null_divisor_faults", "(k 1 (% #0 #1) (i32 v1) (i32 n0))"),
+    ("rem_zero_is_null", "(k 2 (% #0 #1) (i32 v1 v7) (i32 v0 n0))"),
+    ("rem_null_slot_faults", "(k 1 (% #0 #1) (i32 v-2147483648) (i32 n-1))"),
     ("div_null_slot_faults", "(k 1 (/ #0 #1) (i32 v-2147483648) (i32 n-1))"),
     ("overflow_is_error_unsound", "(k 1 (+ #0 #1) (i32 v2147483647) (i32 v1))"),
     ("raw_invariant_unsound", "(e 2 (or (cast BOOLEAN (+ #0 i32:5)) #1) (i32 v1 n0) (bool vf vf))"),
